@@ -122,6 +122,28 @@ def make_cells(gi, tier):
 
     cells.append(Cell("%s/logexp" % nm, alg, check_logexp, nontrivial_a, classify_a, quick=250, thorough=4000))
 
+    # ---- exp / log called directly on numeric (DM) parameters, in sequences of nearly identical inputs
+    @st.composite
+    def num_seq(draw):
+        return {"x": draw(alg), "pert": [draw(st.sampled_from([0.0, 1e-9, 1e-7, -1e-6, 1e-5])) for _ in range(draw(st.integers(1, 3)))],
+                "d": draw(gens.vector(gi.na, scales=(0,), allow_zero=False))}
+
+    def check_numeric(case):
+        x0 = gens.encode_algebra(case["x"])
+        for eps in [0.0] + list(case["pert"]):
+            x = x0 + eps * np.array(case["d"])
+            Xs = gi.exp(x)
+            Xn = cy.vec(gi.numeric("exp", x))
+            L.close(Xn, Xs, "%s: exp called on numeric parameters (after earlier numeric calls) vs the symbolic function" % nm,
+                    atol=1e-12, rtol=1e-12, scale=float(np.max(np.abs(Xs))) + 1, x=x.tolist(), eps=eps)
+            ls = gi.log(Xs)
+            ln = cy.vec(gi.numeric("log", Xs))
+            if np.all(np.isfinite(ls)):
+                L.close(ln, ls, "%s: log called on numeric parameters (after earlier numeric calls) vs the symbolic function" % nm,
+                        atol=1e-12, rtol=1e-12, scale=float(np.max(np.abs(ls))) + 1, X=Xs.tolist(), eps=eps)
+
+    cells.append(Cell("%s/numeric_mode" % nm, num_seq(), check_numeric, nontrivial_a, classify_a, quick=25, thorough=400))
+
     if has_rot:
         # canonical inputs: unit quaternion of either sign, MRP with |r|<=1 (shadow=False and angle<=pi),
         # any DCM, any Euler triple
